@@ -5,6 +5,7 @@ CONSTANTS
   Periods <- PeriodsA
   MaxNow = 4
   EnvOps = {"stop", "kill", "drain", "abort"}
+  Stalls = {}
   VirtualClock = TRUE
   Instant = FALSE
   UnstartedKillsInterval = TRUE
